@@ -216,10 +216,20 @@ pub fn has_cycle(reg: &PortableRegistry, id: u32) -> bool {
 
 pub fn judge_id(ctx: &mut Ctx, r: &PortableRegistry, id: u32, replay: &dyn Fn() -> serde_json::Value) -> bool {
     scale_typegen::verif_hooks::start();
+    // logical-step watchdog (bounded progress): a generous multiple of (E+1)*(Nn+1)
+    let reach0 = reg::reachable(r, &[id], false, true);
+    let e0: u64 = reach0.iter().filter_map(|i| r.resolve(*i)).map(|t| reg::children(t, false, true).len() as u64).sum();
+    let n0 = reach0.iter().filter(|i| r.resolve(**i).map(|t| !t.path.segments.is_empty()).unwrap_or(false)).count() as u64;
+    scale_typegen::verif_hooks::set_budget(Some(((e0 + 1) * (n0 + 1)).saturating_mul(8).saturating_add(256)));
     let got = guard(|| type_description(id, r, false));
+    scale_typegen::verif_hooks::set_budget(None);
     let events = scale_typegen::verif_hooks::take();
     crate::gen::tally(&events, &mut ctx.res.counters);
     let text = match got {
+        Err(p) if p.msg.contains("event budget exceeded") => {
+            ctx.violation("C13:progress-bound", format!("type_description({id}) did not finish within 8x (E+1)*(Nn+1) resolve steps"), replay());
+            return false;
+        }
         Err(p) => {
             ctx.violation(format!("C13:panic:{}", p.signature()), format!("type_description({id}) panicked: {}", p.msg), replay());
             return false;
